@@ -288,9 +288,89 @@ def alias_history(seed, res):
                 res.outcome(('alias', how, mode))
 
 
+def short_cart_text(rows):
+    """A .p8 file whose data sections have only the first `rows[name]` rows (None = section left out), as PICO-8
+    writes carts whose trailing rows are empty."""
+    from lib import refcodec as rc
+    mem = initial(0, 0)
+    out = [rc.P8_HEADER, b'version 33\n', b'__lua__\n', b'x=1\n']
+    enc = {'gfx': lambda b: rc.gfx_rows(b), 'gff': lambda b: rc.hex_rows(b, 128), 'map': lambda b: rc.hex_rows(b, 128),
+           'sfx': lambda b: rc.sfx_rows(b), 'music': lambda b: rc.music_rows(b)}
+    for name, lo, hi in REGIONS:
+        if rows.get(name) is None:
+            continue
+        data = bytes(mem[lo:hi])
+        if name == 'music':
+            data = bytes((b & 0x7f) if i % 4 == 3 else b for i, b in enumerate(data))
+        out.append(b'__' + name.encode() + b'__\n' + b''.join(r.encode() + b'\n' for r in enc[name](data)[:rows[name]]))
+    return b''.join(out)
+
+
+FULL_ROWS = {'gfx': 128, 'map': 32, 'gff': 2, 'music': 64, 'sfx': 64}
+
+
+def loaded_history(seed, res):
+    """Carts as the .p8 LOADER hands them out, including files whose sections have fewer rows than the region (or
+    are left out): the memory map is the same 0x4300 bytes, so every boundary write must land where it is addressed."""
+    import io
+    from pico8.game.formatter.p8 import P8Formatter
+    variants = [('full', dict(FULL_ROWS))]
+    for name in FULL_ROWS:
+        for r in (None, 0, 1, FULL_ROWS[name] - 1):
+            v = dict(FULL_ROWS)
+            v[name] = r
+            variants.append(('%s-rows-%s' % (name, r), v))
+    variants.append(('all-short', {'gfx': 3, 'map': 2, 'gff': 1, 'music': 1, 'sfx': 2}))
+    variants.append(('only-lua', {}))
+    for tag, rows in variants:
+        res.evaluations += 1
+        case = {'loaded': tag}
+        try:
+            g = P8Formatter.from_file(io.BytesIO(short_cart_text(rows)), filename='x.p8')
+        except Exception as e:
+            res.violation('C18|loaded|load-raise|%s' % type(e).__name__, 'loading %s raised %r' % (tag, e), case)
+            continue
+        sizes = [len(getattr(g, n)._data) for n, _, _ in REGIONS]
+        if sizes != [hi - lo for _, lo, hi in REGIONS]:
+            # a region shorter than its nominal size: address a byte near its nominal end and see where the write lands
+            n, lo, hi = next(r for r, z in zip(REGIONS, sizes) if z != r[2] - r[1])
+            data = b'\xa5\x5a'
+            try:
+                g.write_cart_data(data, hi - 4)
+                raised = None
+            except Exception as ex:
+                raised = ex
+            reg = getattr(g, n)._data
+            if raised is not None or len(reg) != hi - lo or bytes(reg[hi - 4 - lo:hi - 2 - lo]) != data:
+                res.violation('C18|loaded|write-misplaced|%s' % n,
+                              'cart loaded from a .p8 file (%s): region %s has %d bytes after loading; write_cart_data(2 bytes, '
+                              '%#x) %s' % (tag, n, dict(zip([r[0] for r in REGIONS], sizes))[n], hi - 4,
+                                          ('raised %r' % raised) if raised is not None else
+                                          'left the region with %d bytes and %r at the addressed offset (region size must stay %d, '
+                                          'the bytes must be at offset %#x)' % (len(reg), bytes(reg[hi - 4 - lo:hi - 2 - lo]), hi - lo, hi - 4 - lo)),
+                              case)
+            continue
+        model = image(g)
+        hist = []
+        for k, (s, e) in enumerate(ALIAS_WRITES):
+            res.evaluations += 1
+            ok, model = apply_and_check(g, model, s, e, fill(seed, k % 5 + 1), res, hist)
+            hist = hist + [[s, e]]
+            if not ok:
+                for sig in list(res.violations):
+                    if not sig.startswith('C18|loaded') and not sig.startswith('C18|alias') and not sig.startswith('C18|after'):
+                        v = res.violations.pop(sig)
+                        res.violations['C18|loaded|%s' % sig.split('|', 1)[1]] = (
+                            v[0] + ' [cart loaded from a .p8 file: %s]' % tag, {'loaded': tag, 'hist': hist}, v[2])
+                break
+            res.nontriv(('loaded', tag, k))
+        else:
+            res.outcome(('loaded', tag == 'full'))
+
+
 def shards(tier, seed):
     depth, deltas = plan(tier)
-    return [(tier, seed, init, i) for init in (0, 1) for i in range(len(WRITES[deltas[0]]))] + [('replace', seed), ('alias', seed)]
+    return [(tier, seed, init, i) for init in (0, 1) for i in range(len(WRITES[deltas[0]]))] + [('replace', seed), ('alias', seed), ('loaded', seed)]
 
 
 def run_shard(item):
@@ -298,6 +378,11 @@ def run_shard(item):
         res = ShardResult()
         replace_history(item[1], res)
         res.sample({'history': 'write x6; replace section object(s); write x6; ... on one Game'})
+        return res
+    if item[0] == 'loaded':
+        res = ShardResult()
+        loaded_history(item[1], res)
+        res.sample({'history': 'carts loaded from .p8 files with full, short and missing sections; 9 boundary writes each'})
         return res
     if item[0] == 'alias':
         res = ShardResult()
@@ -319,6 +404,9 @@ def replay(case):
     res = ShardResult()
     if 'replace' in case:
         replace_history(0, res)
+        return [(s, v[0]) for s, v in res.violations.items()]
+    if 'loaded' in case:
+        loaded_history(0, res)
         return [(s, v[0]) for s, v in res.violations.items()]
     if 'alias' in case:
         alias_history(0, res)
